@@ -246,6 +246,23 @@ Section LagSpec.
       rewrite Nat2Z.id. apply lag_body_spec. exact HL.
   Qed.
 
+  (** cold start: the buffer made by initLag has exactly int(timeLag) zero entries, so the first
+      L outflows are zero and the rest is the inflow delayed by L steps *)
+  Theorem lag_cold_start (timeLag : T) (L : nat) (inflow : list T) :
+    truncZ timeLag = Z.of_nat L ->
+    exists buffer, lag_init timeLag = Some buffer /\ length buffer = L /\
+      lag_fn timeLag inflow buffer
+      = Some (firstn (length inflow) (repeat zero L ++ inflow), lastn L (repeat zero L ++ inflow)).
+  Proof.
+    intros Ht. exists (repeat zero L). unfold lag_init. rewrite Ht.
+    replace (Z.ltb (Z.of_nat L) 0) with false by (symmetry; apply Z.ltb_ge; lia).
+    rewrite Nat2Z.id. split; [reflexivity|]. split; [apply repeat_length|].
+    rewrite (lag_fn_spec timeLag L inflow (repeat zero L) Ht) by (rewrite repeat_length; lia).
+    rewrite (@firstn_all2 _ L (repeat zero L)), (@skipn_all2 _ L (repeat zero L)), app_nil_r
+      by (rewrite repeat_length; lia).
+    reflexivity.
+  Qed.
+
   (** a negative lag is a Go panic *)
   Theorem lag_fn_negative (timeLag : T) inflow lagged :
     (truncZ timeLag < 0)%Z -> lag_fn timeLag inflow lagged = None.
